@@ -446,6 +446,7 @@ func init() {
 		}
 		checkMatchDispatch(r, prog, a, "c04")
 		checkDispositionTable(r, prog, "c04", true, false)
+		checkRegexpSource(r, prog, a, "c04") // matches and not matches use the same pattern, prepared the same way
 		g := loadGrammars(r, prog)
 		if g != nil {
 			ga := NewGA(prog, g.Tab)
